@@ -112,7 +112,7 @@ class LStar:
         import thejoker as tj
 
         j = tj.TheJoker(self.world.prior)
-        return j._make_joker_helper(self.world.datasets[data_idx])
+        return j._make_joker_helper(self.world.ref_datasets[data_idx])
 
     def packed(self, data_idx, lib_idx):
         key = ("packed", data_idx, lib_idx)
